@@ -128,3 +128,33 @@ merge = Contract("C20.merge_intervals[frame]", target=lambda: ("ast", "bionumpy/
                  canaries=[("running maximum dropped: stops aliases the input column", "stops = np.maximum.accumulate(intervals.stop)", "stops = intervals.stop")])
 
 CONTRACTS = [str_to_int, str_to_float, merge]
+
+
+# --- frame conditions of the interval helpers whose functional contracts are proved for C08: the same executions, but the obligation is that no write
+# reaches a heap cell of the caller's table (start / stop / strand / chromosome columns) or of the sizes array - through any alias.
+def _mk_frame_of(base, label):
+    def setup(ctx):
+        st = base.setup(ctx)
+        cells = []
+        for a in st.args:
+            if isinstance(a, STable):
+                cells += [("column %s" % k, v.buf) for k, v in a.cols.items() if isinstance(v, SArr)]
+            elif isinstance(a, SArr):
+                cells.append(("array argument", a.buf))
+        st.frame_cells = [(nm, b, b.at) for nm, b in cells]
+        return st
+
+    def ens(ctx, st, ret):
+        out = [("frame: %s of the argument not written (through any alias)" % nm, b.at is at0) for nm, b, at0 in st.frame_cells]
+        res_cols = getattr(ret, "cols", {})
+        for k in ("start", "stop"):
+            if k in res_cols:
+                own = [b for nm, b, at0 in st.frame_cells]
+                out.append(("the result's %s column is a new array (a later write to the result cannot reach the argument)" % k, all(res_cols[k].buf is not b for b in own)))
+        return out
+
+    return Contract("C20.%s[frame]" % label, target=base.target, setup=setup, requires=base.requires, ensures=ens, callees=base.callees, canaries=[])
+
+
+from contracts import c08 as _c08      # noqa: E402
+CONTRACTS += [_mk_frame_of(_c08.extend_to_size, "extend_to_size"), _mk_frame_of(_c08.clip, "clip")]
